@@ -13,6 +13,9 @@ pub mod c08;
 pub mod c09;
 pub mod c10;
 pub mod c11;
+pub mod c12;
+pub mod c13;
+pub mod c14;
 pub mod c19;
 pub mod e2e;
 
@@ -30,7 +33,7 @@ pub fn sim_case(opts: &crate::simnet::gen::GenOpts) -> proptest::strategy::Boxed
 }
 
 pub fn all() -> Vec<PropertyCheck> {
-    vec![c01::check(), c02::check(), c03::check(), c06::check(), c07::check(), c08::check(), c09::check(), c10::check(), c11::check(), c19::check()]
+    vec![c01::check(), c02::check(), c03::check(), c06::check(), c07::check(), c08::check(), c09::check(), c10::check(), c11::check(), c12::check(), c13::check(), c14::check(), c19::check()]
 }
 
 pub fn by_id(id: &str) -> Option<PropertyCheck> {
